@@ -257,7 +257,11 @@ fn history_independence(run: &mut Run) -> u64 {
 
 /// Push evaluation is independent of the order in which inputs were declared
 fn input_orders(run: &mut Run, quick: bool) -> u64 {
-    let names = ["a", "b", "c", "d"];
+    // plain names, and names that differ only in case, by a trailing space, or by being a prefix of
+    // one another (a name is a string: these are four different inputs)
+    input_orders_named(run, quick, ["a", "b", "c", "d"]) + input_orders_named(run, quick, ["x", "X", "x ", "xx"]) + input_orders_named(run, quick, ["\u{e9}", "\u{c9}", "e", "e\u{301}"])
+}
+fn input_orders_named(run: &mut Run, quick: bool, names: [&'static str; 4]) -> u64 {
     let lits = [Lit::I(5), Lit::F(0.75), Lit::B(true), Lit::I(-8)];
     let alphabet: Vec<PushGene> = {
         let mut g: Vec<PushGene> = names.iter().map(|n| PushGene::Instruction(PushInstruction::InputVar(VariableName::from(*n)))).collect();
@@ -337,6 +341,17 @@ fn input_orders(run: &mut Run, quick: bool) -> u64 {
                     Err(p) => (Err(format!("panic {p}")), RState::empty([0; 4])),
                 };
                 k += 1;
+                // a program that is one input variable ends with that input's value on its stack
+                if g.len() == 1 && g[0] < 4 {
+                    let fine = match &lits[g[0]] {
+                        Lit::I(v) => obs.int == vec![*v] && obs.float.is_empty() && obs.boolean.is_empty(),
+                        Lit::F(v) => obs.float == vec![*v] && obs.int.is_empty() && obs.boolean.is_empty(),
+                        Lit::B(v) => obs.boolean == vec![*v] && obs.int.is_empty() && obs.float.is_empty(),
+                    };
+                    if !fine {
+                        return (k, Some(format!("the program [{:?}] with inputs {names:?} = {lits:?} declared in order {order:?} ends with int {:?} float {:?} bool {:?}", names[g[0]], obs.int, obs.float, obs.boolean)));
+                    }
+                }
                 match &first {
                     None => first = Some((res, obs)),
                     Some((r0, o0)) => {
@@ -346,7 +361,7 @@ fn input_orders(run: &mut Run, quick: bool) -> u64 {
                             _ => false,
                         };
                         if !same || *o0 != obs {
-                            return (k, Some(format!("program {g:?} with inputs declared in order {order:?} ends differently than with order {:?}", perms[0])));
+                            return (k, Some(format!("program {g:?} (genes 0..3 = the inputs {names:?}) with inputs declared in order {order:?} ends differently than with order {:?}", perms[0])));
                         }
                     }
                 }
@@ -357,7 +372,7 @@ fn input_orders(run: &mut Run, quick: bool) -> u64 {
     for (gi, (k, v)) in results.into_iter().enumerate() {
         n += k;
         if let Some(w) = v {
-            run.violation("push/input-declaration-order", w, json!({"check":"C16","scenario":"input-orders","genome":genomes[gi]}));
+            run.violation(if names[0] == "a" { "push/input-declaration-order".to_string() } else { format!("push/input-declaration-order/names {names:?}") }, w, json!({"check":"C16","scenario":"input-orders","genome":genomes[gi],"names":names}));
         }
     }
     let _ = OF::default();
@@ -411,7 +426,7 @@ pub fn run(run: &mut Run) {
     run.transitions = run.evaluations;
     run.traces_validated = o.replays + h + io;
     run.distinct_nontrivial = o.nontrivial;
-    run.rule = "every scenario of the selector, weighted, crossover, mutation and generator checks: explore all word sequences (cap 20,000 leaves per scenario), replay every leaf twice from its recorded choice sequence and compare observation and complete draw trace; scenarios whose specification is random must show >= 2 outcomes over the supplied generator's streams (a subject using rand::rng() shows one leaf); history independence on shared operator values; observation digest compared across three processes; Push programs with 4 inputs under all 24 declaration orders; non-trivial = scenarios with more than one outcome".into();
+    run.rule = "every scenario of the selector, weighted, crossover, mutation and generator checks: explore all word sequences (cap 20,000 leaves per scenario), replay every leaf twice from its recorded choice sequence and compare observation and complete draw trace; scenarios whose specification is random must show >= 2 outcomes over the supplied generator's streams (a subject using rand::rng() shows one leaf); history independence on shared operator values; observation digest compared across three processes; Push programs with 4 inputs (three families of names: plain; differing only in case, a trailing space or by prefix; composed and decomposed accents) under all 24 declaration orders, each built twice; non-trivial = scenarios with more than one outcome".into();
     run.bound("scenarios", json!(run.states));
     run.bound("input_order_genome_len", json!(if quick { 3 } else { 4 }));
     run.note("leaves", json!(o.leaves));
